@@ -73,6 +73,58 @@ def estimate_hook(p_est=0.5, p_cache=0.3):
     return hook
 
 
+def tmpl_spec(pid, level, rule, profile, **kw):
+    from . import tmpl
+
+    def run_one(seed, run):
+        res = tmpl.run_template(pid, seed, run, profile)
+        return runner.result_to_dict(res, keep_trace=True)
+
+    def _replay(doc, want=None):
+        prof = dict(profile, _want=want)
+        res = tmpl.run_template(pid, 0, 0, prof, world=doc["world"], history=[r["op"] for r in doc["trace"]])
+        return res
+
+    def replay_fn(doc):
+        return [v.to_json() for v in _replay(doc, doc.get("expected", {}).get("oracle")).violations]
+
+    def minimise_fn(doc):
+        want = doc["expected"]["oracle"]
+
+        def test_hist(sub):
+            d = dict(doc, trace=sub)
+            try:
+                return any(v.oracle == want for v in _replay(d, want).violations)
+            except Exception:  # noqa: BLE001
+                return False
+
+        if not test_hist(doc["trace"]):
+            return doc
+        hist = runner.ddmin(list(doc["trace"]), test_hist, budget=60)
+        world = doc["world"]
+
+        def test_prog(sub):
+            w = dict(world, program=sub)
+            try:
+                return any(v.oracle == want for v in _replay(dict(doc, world=w, trace=hist), want).violations)
+            except Exception:  # noqa: BLE001
+                return False
+
+        prog = runner.ddmin(list(world["program"]), test_prog, budget=120)
+        out = dict(doc, world=dict(world, program=prog), trace=hist, original_length=len(doc["trace"]))
+        res = _replay(out, want)
+        v = [x for x in res.violations if x.oracle == want][0]
+        out["expected"] = {"oracle": want, "msg": v.msg, "step": v.step}
+        return out
+
+    comps = {
+        "real": ["pulser.Sequence parametrized mode (store/build), Variable/ParamObj evaluation, MappableRegister, switch_register/switch_device, abstract-repr and legacy (de)serialisers"],
+        "model_or_stub": ["direct twin: the same calls issued with numpy-evaluated values (simlib/tmpl.py)"],
+        "not_exercised": ["torch-backed values"],
+    }
+    return runner.CheckSpec(pid=pid, level=level, rule=rule, run_one=run_one, replay_fn=replay_fn, minimise_fn=minimise_fn, components=comps, known_matchers=known.MATCHERS, **kw)
+
+
 _REG = {}
 
 
@@ -287,14 +339,64 @@ def _build():
         expected_probes=["restart_abstract", "restart_legacy", "schema_validated"],
     )
 
+    _REG["C08"] = tmpl_spec(
+        "C08",
+        "exploration",
+        "seeded template worlds (TMPL-SIM): a concrete program from the SEQ-SIM actors with numeric positions lifted into variable expressions (+ - * / // % **, neg abs sqrt exp cos tanh, array items/slices); history = builds of the template in seeded order (repeats included), failing builds (missing / wrong-size / invalidating values), str / to_abstract_repr in between, builds of switch_register / switch_device siblings sharing the Variable objects, cache flushes, restarts of the template; every build is compared with direct construction (same calls, numpy-evaluated values), the template's fingerprint must never change; mappable registers: mapping to chosen traps in declared order; non-trivial = >=2 variables, >=1 expression in the program and >=3 builds; distinct = distinct (program, variables, history)",
+        {"mappable_p": 0.3, "lift_p": 0.5, "hist_len": 10, "only_prefix": "C08"},
+        runs={"quick": 2500, "thorough": 60000},
+        assumptions=["direct evaluation uses numpy float64 arithmetic (the same IEEE operations the library applies)", "calls the template itself refused when they were issued are not part of either side"],
+        expected_probes=["repeated_build", "failing_build_mid_replay", "sibling_build"],
+    )
+
+
+def combine(pid, a, b, every=3, **kw):
+    """One check made of two engines: run index % every == every-1 goes to b."""
+
+    def run_one(seed, run):
+        return (b if run % every == every - 1 else a).run_one(seed, run)
+
+    def pick(doc):
+        return b if "program" in doc.get("world", {}) else a
+
+    return runner.CheckSpec(
+        pid=pid,
+        level=a.level,
+        rule=a.rule + " || " + b.rule,
+        run_one=run_one,
+        replay_fn=lambda doc: pick(doc).replay_fn(doc),
+        minimise_fn=lambda doc: pick(doc).minimise_fn(doc),
+        components={k: a.components.get(k, []) + b.components.get(k, []) for k in ("real", "model_or_stub", "not_exercised")},
+        known_matchers=known.MATCHERS,
+        runs=a.runs,
+        wall_cap_s=a.wall_cap_s,
+        assumptions=a.assumptions + b.assumptions,
+        expected_probes=a.expected_probes + b.expected_probes,
+        **kw,
+    )
+
+
+def _build2():
+    c04_tmpl = tmpl_spec(
+        "C04",
+        "exploration",
+        "TMPL-SIM part: parametrized templates (variables in arbitrary numeric positions, expressions, mappable registers) are persisted through the abstract repr / legacy JSON at seeded instants of a build history, restored, and original and restored template are built under the same assignments: the built sequences must be identical (or both refuse); the template's abstract repr must be schema-valid; the history continues on the restored template",
+        {"mappable_p": 0.3, "lift_p": 0.55, "hist_len": 8, "only_prefix": "C04", "hist_kinds": {"build": 3, "bad": 1, "str": 0.3, "abstract": 0.5, "sibling": 0.5, "restart": 6, "cache": 0.2}},
+        assumptions=["AbstractReprError for constructs the format documents as unsupported is an accepted outcome"],
+        expected_probes=["template_restart_abstract", "template_restart_legacy", "template_schema_validated"],
+    )
+    _REG["C04"] = combine("C04", _REG["C04"], c04_tmpl)
+
 
 def get(pid):
     if not _REG:
         _build()
+        _build2()
     return _REG.get(pid)
 
 
 def all_ids():
     if not _REG:
         _build()
+        _build2()
     return sorted(_REG)
